@@ -18,7 +18,7 @@ class Tok:
     def __init__(self, m): self.marker = m
 
 def covers(has, m):
-    ns = {'has': has, 'token': Tok(m)}
+    ns = {'has': has, 'token': Tok(m), 'cls': _rules.CheckMarkers}
     exec(code, ns)
     return bool(ns['has_marker'])
 
